@@ -11,6 +11,7 @@ import (
 	"math/rand"
 	"os"
 	"path/filepath"
+	"runtime"
 	"sort"
 	"strconv"
 	"strings"
@@ -628,3 +629,94 @@ var (
 	laterMtx  sync.Mutex
 	laterDirs []string
 )
+
+// Guarded runs fn on its own goroutine. If fn has not returned after limit (a wall-clock watchdog
+// that decides nothing by itself), the goroutine's stack is sampled twice, a few seconds apart:
+// when both samples show it blocked in the acquisition of a sync.Mutex / sync.RWMutex for at
+// least a minute ("[sync.Mutex.Lock, N minutes]") with identical frames, the code under test is
+// wedged on a lock nobody will release; wedgedAt then names the first frame of the repository
+// under test on that stack and stack holds the sample. Anything else (still running, blocked on
+// a channel, ...) leaves wedgedAt empty: the caller reports inconclusive. The goroutine is left
+// behind in both cases.
+func Guarded(limit time.Duration, fn func()) (finished bool, wedgedAt string, stack string) {
+	done := make(chan struct{})
+	idc := make(chan string, 1)
+	go func() {
+		defer close(done)
+		idc <- goroutineID()
+		fn()
+	}()
+	id := <-idc
+	select {
+	case <-done:
+		return true, "", ""
+	case <-time.After(limit):
+	}
+	s1 := stackOf(id)
+	select {
+	case <-done:
+		return true, "", ""
+	case <-time.After(5 * time.Second):
+	}
+	s2 := stackOf(id)
+	h1, f1 := splitStack(s1)
+	h2, f2 := splitStack(s2)
+	onLock := func(h string) bool {
+		return (strings.Contains(h, "sync.Mutex.Lock") || strings.Contains(h, "sync.RWMutex.")) && strings.Contains(h, "minutes")
+	}
+	if s1 != "" && onLock(h1) && onLock(h2) && f1 == f2 {
+		for _, l := range strings.Split(f2, "\n") {
+			if strings.HasPrefix(l, "github.com/dappledger/AnnChain/") {
+				l = strings.TrimPrefix(l, "github.com/dappledger/AnnChain/")
+				if k := strings.LastIndex(l, "("); k > 0 {
+					l = l[:k]
+				}
+				return false, l, s2
+			}
+		}
+		return false, "unknown", s2
+	}
+	return false, "", s2
+}
+
+func goroutineID() string {
+	buf := make([]byte, 64)
+	buf = buf[:runtime.Stack(buf, false)]
+	f := strings.Fields(string(buf))
+	if len(f) >= 2 {
+		return f[1]
+	}
+	return ""
+}
+
+// stackOf returns the block of goroutine id in a dump of all goroutines.
+func stackOf(id string) string {
+	buf := make([]byte, 8<<20)
+	buf = buf[:runtime.Stack(buf, true)]
+	for _, blk := range strings.Split(string(buf), "\n\n") {
+		if strings.HasPrefix(blk, "goroutine "+id+" ") {
+			return blk
+		}
+	}
+	return ""
+}
+
+// splitStack separates the header line ("goroutine 7 [sync.Mutex.Lock, 2 minutes]:") from the
+// frames, dropping argument values and pc offsets so that two samples compare equal.
+func splitStack(s string) (header, frames string) {
+	ls := strings.Split(s, "\n")
+	if len(ls) == 0 {
+		return "", ""
+	}
+	var out []string
+	for _, l := range ls[1:] {
+		if strings.HasPrefix(l, "\t") {
+			continue
+		}
+		if k := strings.LastIndex(l, "("); k > 0 {
+			l = l[:k]
+		}
+		out = append(out, l)
+	}
+	return ls[0], strings.Join(out, "\n")
+}
